@@ -314,29 +314,6 @@ Definition fin_step (s : hst) (p : FinishedPdu) (code : Z) (r : list Z) : hst * 
     upd s (do o <- fault_opt r; Ok (setp (fin_with_params p (fn_with_fault q o))))
   else (s, [1; 97]).
 
-Definition step (s : hst) (o : list Z) : hst * list Z :=
-  match o with
-  | [] => (s, [1; 97])
-  | code :: r =>
-    if code >=? 100 then gen_step s code r
-    else match hs_p s with
-         | KEof p => eof_step s p code r
-         | KAck p => ack_step s p code r
-         | KPrompt p => prompt_step s p code r
-         | KKa p => ka_step s p code r
-         | KFin p => fin_step s p code r
-         | KMd p => md_step s p code r
-         | KNak p => nak_step s p code r
-         end
-  end.
-
-Fixpoint run_ops (s : hst) (ops : list (list Z)) : hst * args :=
-  match ops with
-  | [] => (s, [])
-  | o :: r => let '(s1, e) := step s o in
-              let '(s2, l) := run_ops s1 r in (s2, e :: l)
-  end.
-
 (* ---------- construction paths ---------- *)
 Definition mk_st (k : kpdu) (c : PduConfig) : hst :=
   {| hs_p := k; hs_cc := c; hs_segs := []; hs_tlvs := []; hs_resps := []; hs_alias := false;
@@ -421,6 +398,40 @@ Definition k_fields (s : hst) : args :=
   | KFin p => fin_fields_h p (hs_rnone s)
   | KMd p => md_fields_h p
   | KNak p => DispPduC.nak_fields p
+  end.
+
+(* the values the object exposes: entity IDs / sequence number, flags, and the kind's own values *)
+Definition k_values (s : hst) : args :=
+  let c := fdir_conf (k_fd (hs_p s)) in
+  [conf_ids c; conf_flags c] ++
+  match hs_p s with
+  | KFin _ | KMd _ | KNak _ => skipn 5 (k_fields s)
+  | _ => skipn 4 (k_fields s)
+  end.
+
+Definition step (s : hst) (o : list Z) : hst * list Z :=
+  match o with
+  | [] => (s, [1; 97])
+  | code :: r =>
+    (* 122: all exposed values observed *)
+    if code =? 122 then (s, enchunk (k_values s))
+    else if code >=? 100 then gen_step s code r
+    else match hs_p s with
+         | KEof p => eof_step s p code r
+         | KAck p => ack_step s p code r
+         | KPrompt p => prompt_step s p code r
+         | KKa p => ka_step s p code r
+         | KFin p => fin_step s p code r
+         | KMd p => md_step s p code r
+         | KNak p => nak_step s p code r
+         end
+  end.
+
+Fixpoint run_ops (s : hst) (ops : list (list Z)) : hst * args :=
+  match ops with
+  | [] => (s, [])
+  | o :: r => let '(s1, e) := step s o in
+              let '(s2, l) := run_ops s1 r in (s2, e :: l)
   end.
 
 Definition caller_list (s : hst) : list Z :=
